@@ -1,8 +1,6 @@
 (** Proofs about Model/Clustering.v (property C05). *)
-From SKN Require Import Base.Util Model.Clustering.
 From Coq Require Import Permutation Sorted Lia QArith Qabs Lqa Psatz.
-Close Scope Q_scope.
-Open Scope nat_scope.
+From SKN Require Import Base.Util Model.Clustering.
 
 (* ------------------------------------------------------------------------------------------ *)
 (** * np.unique *)
@@ -213,7 +211,8 @@ Qed.
 
 Section Reindex.
   Context (argsort : list Z -> list nat) (labels : list Z).
-  Context (Hargsort : forall keys, argsort_ok keys (argsort keys)).
+  Context (Hargsort : let keys := map (fun c => (- Z.of_nat c)%Z) (unique_counts labels) in
+                      argsort_ok keys (argsort keys)).
 
   Let u := zuniq labels.
   Let k := length u.
@@ -341,7 +340,7 @@ Section Reindex.
         * apply g_char; auto. apply zuniq_In. apply nthz_In. apply order_nth_lt. exact H.
         * apply zuniq_In. apply nthz_In. apply order_nth_lt. exact H.
     - intros a b Hab Hb. rewrite !out_count by lia.
-      destruct (Hargsort keys) as [_ HS]. fold order in HS.
+      destruct Hargsort as [_ HS]. fold counts keys order in HS.
       apply Sorted_StronglySorted in HS; [|intros x y z; lia].
       assert (H := ssorted_nth _ a b HS Hab).
       rewrite map_length, order_len in H. specialize (H Hb).
@@ -1113,3 +1112,376 @@ Section InitCenters.
         rewrite Hl, app_length. cbn [length]. lia.
   Qed.
 End InitCenters.
+
+Lemma init_centers_spec mask k ppr pick :
+  pick_ok pick -> 1 <= k -> k <= length (masked mask) ->
+  exists cs tr, init_centers mask k ppr pick = Ok (cs, tr) /\
+                length cs = k /\ NoDup cs /\ forall c, In c cs -> nthb mask c = true.
+Proof.
+  intros Hpick Hk1 Hk. unfold init_centers.
+  destruct (masked mask) as [|v0 rest] eqn:Em; [cbn in Hk; lia|].
+  assert (Hc0 : nthb mask (pick 0 (v0 :: rest)) = true).
+  { apply masked_In. rewrite Em. apply Hpick. discriminate. }
+  destruct (init_loop_inv mask ppr pick Hpick (k - 1) 1 (clear_mask mask (pick 0 (v0 :: rest)))
+                          [pick 0 (v0 :: rest)] [v0 :: rest]) as [cs [tr [E [Hl [Hnd Hall]]]]].
+  - intros v. rewrite clear_mask_spec. cbn [In]. split.
+    + intros [H1 H2]. split; [exact H1|]. intros [H|[]]. congruence.
+    + intros [H1 H2]. split; [exact H1|]. intros E. apply H2. left. auto.
+  - constructor; [intros []|constructor].
+  - intros c [<-|[]]. exact Hc0.
+  - cbn [length]. rewrite Em. lia.
+  - exists cs, tr. split; [exact E|]. split; [cbn [length] in Hl; lia|]. split; assumption.
+Qed.
+
+Lemma In_firstn {A} (l : list A) i y : In y (firstn i l) -> In y l.
+Proof. intros H. rewrite <- (firstn_skipn i l). apply in_app_iff. left. exact H. Qed.
+
+Lemma In_upd {A} (l : list A) i x y : In y (upd l i x) -> y = x \/ In y l.
+Proof.
+  unfold upd. destruct (Nat.ltb i (length l)); [|auto]. intros H.
+  apply in_app_iff in H. destruct H as [H|[H|H]].
+  - right. apply (In_firstn l i). exact H.
+  - left. auto.
+  - right. rewrite <- (firstn_skipn (S i) l). apply in_app_iff. right. exact H.
+Qed.
+
+Lemma scatter_values {A} (init : list A) keys vals y :
+  In y (scatter init keys vals) -> In y init \/ In y vals.
+Proof.
+  unfold scatter. revert init vals. induction keys as [|kx keys IH]; intros init vals H; [left; exact H|].
+  destruct vals as [|vx vals]; [left; exact H|]. cbn [combine fold_left fst snd] in H.
+  apply IH in H. destruct H as [H|H]; [|right; right; exact H].
+  apply In_upd in H. destruct H as [->|H]; [right; left; reflexivity | left; exact H].
+Qed.
+
+Lemma fold_choice_In {A} (p : A -> A -> bool) (l : list A) (b : A) :
+  In (fold_left (fun best c => if p best c then best else c) l b) (b :: l).
+Proof.
+  revert b. induction l as [|a t IH]; intros b; [left; reflexivity|].
+  cbn [fold_left]. destruct (p b a).
+  - destruct (IH b) as [H|H]; [left; exact H | right; right; exact H].
+  - right. apply IH.
+Qed.
+
+Lemma argmax_row_lt k r : 1 <= k -> argmax_row k r < k.
+Proof.
+  intros Hk. unfold argmax_row.
+  assert (H := fold_choice_In (fun best c => Qle_bool (r c) (r best)) (seq 1 (k - 1)) 0).
+  destruct H as [H|H]; [rewrite <- H; lia|]. apply in_seq in H. lia.
+Qed.
+
+(** Labels produced by the classifier step lie in 0..(number of centers)-1, one per node. *)
+Definition labels_good (n k : nat) (lab : list Z) : Prop :=
+  length lab = n /\ forall l, In l lab -> (0 <= l < Z.of_nat k)%Z.
+
+Lemma assign_labels_good n centers scores lab :
+  assign_labels n centers scores = Ok lab -> labels_good n (length centers) lab.
+Proof.
+  unfold assign_labels. set (classes := zuniq (filter (fun l => (0 <=? l)%Z) (seed_vector n centers))).
+  assert (Hcl : forall x, In x classes -> (0 <= x < Z.of_nat (length centers))%Z).
+  { intros x Hin. unfold classes in Hin. apply (proj1 (zuniq_In _ _)) in Hin. apply filter_In in Hin. destruct Hin as [Hin Hpos].
+    apply Z.leb_le in Hpos. unfold seed_vector in Hin. apply scatter_values in Hin.
+    destruct Hin as [Hin|Hin].
+    - apply repeat_spec in Hin. lia.
+    - apply in_map_iff in Hin. destruct Hin as [c [Ec Hc]]. apply in_seq in Hc. lia. }
+  destruct (Nat.ltb (length classes) 2) eqn:E; [discriminate|]. apply Nat.ltb_ge in E.
+  intros H. inversion H; subst; clear H. split; [rewrite map_length, seq_length; reflexivity|].
+  intros l Hl. apply in_map_iff in Hl. destruct Hl as [v [<- _]].
+  apply Hcl. apply nthz_In. apply argmax_row_lt. lia.
+Qed.
+
+Lemma kc_loop_good max_iter n scores centers : forall fuel n_iter prev labels out,
+  (forall lab, labels = Some lab -> labels_good n (length centers) lab) ->
+  kc_loop fuel max_iter n_iter n scores prev centers labels = Ok (Some out) ->
+  labels_good n (length centers) out.
+Proof.
+  induction fuel as [|f IH]; intros n_iter prev labels out Hlab H.
+  - cbn in H. inversion H; subst. apply Hlab. reflexivity.
+  - cbn [kc_loop] in H.
+    destruct (negb (match prev with Some p => list_eqb p centers | None => false end) && Nat.ltb n_iter max_iter).
+    + destruct (assign_labels n centers (scores n_iter)) as [lab|e] eqn:Ea; [|discriminate].
+      apply (IH (S n_iter) (Some centers) (Some lab) out); [|exact H].
+      intros lab' E. inversion E; subst. apply (assign_labels_good _ _ _ _ Ea).
+    + inversion H; subst. apply Hlab. reflexivity.
+Qed.
+
+Definition run_good (mask : list bool) (k : nat) (t : list Z * list nat * Q) : Prop :=
+  let lab := fst (fst t) in
+  let centers := snd (fst t) in
+  length centers = k /\ NoDup centers /\ (forall c, In c centers -> nthb mask c = true) /\
+  labels_good (length mask) k lab.
+
+Lemma kc_restarts_good mask k max_iter ppr pick scores modularity :
+  (forall r, pick_ok (pick r)) -> 1 <= k -> k <= length (masked mask) ->
+  forall rs runs, kc_restarts mask k max_iter ppr pick scores modularity rs = Ok runs ->
+                  forall t, In t runs -> run_good mask k t.
+Proof.
+  intros Hpick Hk1 Hk. induction rs as [|r rest IH]; intros runs H t Ht.
+  - cbn in H. inversion H; subst. destruct Ht.
+  - cbn [kc_restarts] in H.
+    destruct (init_centers_spec mask k (ppr r) (pick r) (Hpick r) Hk1 Hk) as [cs [tr [E [Hl [Hnd Hall]]]]].
+    rewrite E in H.
+    destruct (kc_loop (S max_iter) max_iter 0 (length mask) (scores r) None cs None) as [[lab|]|e] eqn:El;
+      try discriminate.
+    destruct (kc_restarts mask k max_iter ppr pick scores modularity rest) as [more|e] eqn:Er; [|discriminate].
+    inversion H as [Hruns]. clear H. rewrite <- Hruns in Ht. destruct Ht as [<-|Ht]; [|apply (IH more eq_refl t Ht)].
+    unfold run_good. cbn [fst snd]. split; [exact Hl|]. split; [exact Hnd|]. split; [exact Hall|].
+    rewrite <- Hl. apply (kc_loop_good max_iter (length mask) (scores r) cs (S max_iter) 0 None None lab); [|exact El].
+    intros lab' E'. discriminate.
+Qed.
+
+(** What KCenters.fit reports. *)
+Lemma kcenters_fit_spec bipartite pos n_row n_col k n_init max_iter ppr pick scores modularity out :
+  (forall r, pick_ok (pick r)) ->
+  kcenters_fit bipartite pos n_row n_col k n_init max_iter ppr pick scores modularity = Ok out ->
+  let n := if bipartite then n_row + n_col else n_row in
+  (* n_clusters distinct admissible centers *)
+  length (kc_centers out) = k /\ NoDup (kc_centers out) /\
+  (forall c, In c (kc_centers out) -> admissible bipartite pos n_row n_col c) /\
+  (* one label below n_clusters per node; per row and per column for a bipartite graph *)
+  (exists lab, labels_good n k lab /\
+     if bipartite then kc_labels out = firstn n_row lab /\ kc_labels_row out = Some (firstn n_row lab) /\
+                       kc_labels_col out = Some (skipn n_row lab)
+     else kc_labels out = lab /\ kc_labels_row out = None /\ kc_labels_col out = None) /\
+  (kc_centers_row out, kc_centers_col out) = report_centers bipartite pos n_row (kc_centers out).
+Proof.
+  intros Hpick H n. unfold kcenters_fit in H.
+  destruct (Nat.ltb k 2) eqn:Ek; [discriminate|]. apply Nat.ltb_ge in Ek.
+  destruct (Nat.ltb n_init 1); [discriminate|].
+  destruct (compute_mask bipartite pos n_row n_col) as [mask|e] eqn:Em; [|discriminate].
+  destruct (Nat.ltb (length (masked mask)) k) eqn:Ekm; [discriminate|]. apply Nat.ltb_ge in Ekm.
+  destruct (kc_restarts mask k max_iter ppr pick scores modularity (seq 0 n_init)) as [[|first more]|e] eqn:Er;
+    try discriminate.
+  apply compute_mask_spec in Em. destruct Em as [Hmlen Hadm].
+  set (best := nth (argmax_q 0 (snd first) 1 (map snd more)) (first :: more) first) in H.
+  assert (Hbest : In best (first :: more)).
+  { unfold best. destruct (Nat.lt_ge_cases (argmax_q 0 (snd first) 1 (map snd more)) (length (first :: more))) as [Hi|Hi].
+    - apply nth_In. exact Hi.
+    - rewrite nth_overflow by exact Hi. left. reflexivity. }
+  assert (Hg := kc_restarts_good mask k max_iter ppr pick scores modularity Hpick ltac:(lia) Ekm _ _ Er best Hbest).
+  destruct Hg as [Hl [Hnd [Hall Hlab]]]. rewrite Hmlen in Hlab. fold n in Hlab.
+  assert (Hadm' : forall c, In c (snd (fst best)) -> admissible bipartite pos n_row n_col c).
+  { intros c Hc. apply Hadm. apply Hall. exact Hc. }
+  destruct bipartite; inversion H as [Hout]; subst out; clear H; cbn [kc_centers kc_labels kc_labels_row kc_labels_col kc_centers_row kc_centers_col];
+    (split; [exact Hl|]; split; [exact Hnd|]; split; [exact Hadm'|]; split;
+     [exists (fst (fst best)); split; [exact Hlab|]; unfold split_vars; cbn [fst snd]; auto
+     | symmetry; apply surjective_pairing]).
+Qed.
+
+Lemma firstn_skipn_good n_row n_col k (lab : list Z) :
+  labels_good (n_row + n_col) k lab ->
+  labels_good n_row k (firstn n_row lab) /\ labels_good n_col k (skipn n_row lab).
+Proof.
+  intros [HL Hall]. split; split.
+  - rewrite firstn_length. lia.
+  - intros l Hl. apply Hall. apply (In_firstn lab n_row). exact Hl.
+  - rewrite skipn_length. lia.
+  - intros l Hl. apply Hall. rewrite <- (firstn_skipn n_row lab). apply in_app_iff. right. exact Hl.
+Qed.
+
+(** Reported row / column centers for a bipartite graph. *)
+Lemma report_centers_spec pos n_row n_col centers :
+  NoDup centers -> (forall c, In c centers -> admissible true pos n_row n_col c) ->
+  match report_centers true pos n_row centers with
+  | (cr, cc) =>
+      let r := match cr with Some r => r | None => [] end in
+      let c := match cc with Some c => c | None => [] end in
+      NoDup r /\ NoDup c /\ (forall v, In v r -> v < n_row) /\ (forall v, In v c -> v < n_col) /\
+      length r + length c = length centers /\
+      (forall v, In v centers <-> (In v r /\ v < n_row) \/ (In (v - n_row) c /\ n_row <= v))
+  end.
+Proof.
+  intros HN Hadm. unfold report_centers, admissible in *.
+  assert (Hinj : forall l, NoDup l -> (forall v, In v l -> n_row <= v) -> NoDup (map (fun c => c - n_row) l)).
+  { intros l Hl Hge. induction Hl as [|a t Ha Ht IH]; [constructor|]. cbn [map]. constructor.
+    - intros H. apply in_map_iff in H. destruct H as [b [E Hb]].
+      assert (Ha' := Hge a (or_introl eq_refl)). assert (Hb' := Hge b (or_intror Hb)).
+      assert (a = b) by lia.
+      subst b. contradiction.
+    - apply IH. intros v Hv. apply Hge. right; exact Hv. }
+  destruct pos.
+  - cbn [length]. split; [exact HN|]. split; [constructor|]. split; [exact Hadm|].
+    split; [intros v []|]. split; [lia|]. intros v. split.
+    + intros H. left. split; [exact H | apply Hadm; exact H].
+    + intros [[H _]|[[] _]]. exact H.
+  - cbn [length]. rewrite map_length. split; [constructor|]. split; [apply Hinj; [exact HN | intros v Hv; apply Hadm in Hv; lia]|].
+    split; [intros v []|]. split.
+    { intros v Hv. apply in_map_iff in Hv. destruct Hv as [c [<- Hc]]. apply Hadm in Hc. lia. }
+    split; [reflexivity|]. intros v. split.
+    + intros H. right. split; [apply (in_map (fun c => c - n_row)); exact H | apply Hadm in H; lia].
+    + intros [[[] _]|[H Hge]]. apply in_map_iff in H. destruct H as [c [E Hc]].
+      assert (c = v) by (apply Hadm in Hc; lia). subst c. exact Hc.
+  - set (r := filter (fun c => Nat.ltb c n_row) centers).
+    set (c := filter (fun c => negb (memn c r)) centers).
+    assert (Hr : forall v, In v r <-> In v centers /\ v < n_row).
+    { intros v. unfold r. rewrite filter_In. rewrite Nat.ltb_lt. tauto. }
+    assert (Hc : forall v, In v c <-> In v centers /\ n_row <= v).
+    { intros v. unfold c. rewrite filter_In. split; intros [H1 H2]; (split; [exact H1|]).
+      - destruct (Nat.lt_ge_cases v n_row) as [Hlt|Hge]; [|exact Hge]. exfalso.
+        assert (Hm : memn v r = true) by (apply memn_In; apply Hr; auto). rewrite Hm in H2. discriminate.
+      - destruct (memn v r) eqn:Em; [|reflexivity]. apply memn_In in Em. apply Hr in Em. lia. }
+    split; [apply NoDup_filter; exact HN|].
+    split; [apply Hinj; [apply NoDup_filter; exact HN | intros v Hv; apply Hc in Hv; tauto]|].
+    split; [intros v Hv; apply Hr in Hv; tauto|].
+    split.
+    { intros v Hv. apply in_map_iff in Hv. destruct Hv as [x [<- Hx]]. apply Hc in Hx.
+      destruct Hx as [Hx Hge]. apply Hadm in Hx. lia. }
+    split.
+    { rewrite map_length. unfold c.
+      assert (E : forall l, length (filter (fun c0 => Nat.ltb c0 n_row) l) +
+                            length (filter (fun c0 => negb (Nat.ltb c0 n_row)) l) = length l).
+      { induction l as [|a t IH]; [reflexivity|]. cbn [filter]. destruct (Nat.ltb a n_row); cbn [negb length]; lia. }
+      rewrite <- (E centers). f_equal. f_equal. apply filter_ext_in. intros v Hv.
+      destruct (Nat.ltb v n_row) eqn:El; destruct (memn v r) eqn:Em; try reflexivity.
+      - apply Nat.ltb_lt in El. assert (Hm : memn v r = true) by (apply memn_In; apply Hr; auto). congruence.
+      - apply memn_In in Em. apply Hr in Em. apply Nat.ltb_ge in El. lia. }
+    intros v. split.
+    + intros H. destruct (Nat.lt_ge_cases v n_row) as [Hlt|Hge].
+      * left. split; [apply Hr; auto | exact Hlt].
+      * right. split; [apply (in_map (fun c => c - n_row)); apply Hc; auto | exact Hge].
+    + intros [[H _]|[H Hge]]; [apply Hr in H; tauto|].
+      apply in_map_iff in H. destruct H as [x [E Hx]]. apply Hc in Hx. destruct Hx as [Hx Hxge].
+      assert (x = v) by lia. subst x. exact Hx.
+  - destruct centers as [|a t]; [|exfalso; apply (Hadm a); left; reflexivity].
+    cbn. split; [constructor|]. split; [constructor|]. split; [intros v []|]. split; [intros v []|].
+    split; [reflexivity|]. intros v. tauto.
+Qed.
+
+(* ------------------------------------------------------------------------------------------ *)
+(** * The run-time check of the argsort contract is sound *)
+
+Lemma is_perm_of_range_sound n perm : is_perm_of_range n perm = true -> Permutation perm (seq 0 n).
+Proof.
+  unfold is_perm_of_range. intros H. apply andb_true_iff in H. destruct H as [HL Hall].
+  apply Nat.eqb_eq in HL. rewrite forallb_forall in Hall.
+  apply Permutation_sym. apply NoDup_Permutation_bis.
+  - apply seq_NoDup.
+  - rewrite seq_length. lia.
+  - intros v Hv. apply memn_In. apply Hall. exact Hv.
+Qed.
+
+Lemma sorted_by_sound keys perm : sorted_by keys perm = true -> Sorted Z.le (map (nthz keys) perm).
+Proof.
+  unfold sorted_by. induction perm as [|a t IH]; intros H; [constructor|].
+  destruct t as [|b t']; [cbn; constructor; constructor|].
+  cbn [tl combine forallb fst snd] in H. apply andb_true_iff in H. destruct H as [Hab Hrest].
+  cbn [map]. constructor.
+  - apply IH. exact Hrest.
+  - constructor. apply Z.leb_le. exact Hab.
+Qed.
+
+Lemma argsort_ok_b_sound keys perm : argsort_ok_b keys perm = true -> argsort_ok keys perm.
+Proof.
+  unfold argsort_ok_b. intros H. apply andb_true_iff in H. destruct H as [H1 H2].
+  split; [apply is_perm_of_range_sound; exact H1 | apply sorted_by_sound; exact H2].
+Qed.
+
+(* ------------------------------------------------------------------------------------------ *)
+(** * _post_processing as a whole, _split_vars, PropagationClustering *)
+
+Lemma nthz_map_of_nat_any (l : list nat) i : nthz (map Z.of_nat l) i = Z.of_nat (nthn l i).
+Proof.
+  destruct (Nat.lt_ge_cases i (length l)) as [H|H]; [apply nthz_map_of_nat; exact H|].
+  unfold nthz, nthn. rewrite !nth_overflow; [reflexivity | exact H | rewrite map_length; exact H].
+Qed.
+
+Lemma post_processing_pf argsort (sort_clusters shuffle_nodes : bool) index raw :
+  (sort_clusters = true ->
+   let keys := map (fun c => (- Z.of_nat c)%Z) (unique_counts (map Z.of_nat raw)) in
+   argsort_ok keys (argsort keys)) ->
+  (shuffle_nodes = true -> Permutation index (seq 0 (length raw))) ->
+  (sort_clusters = false -> exists k0, forall c, In c raw <-> c < k0) ->
+  let n := length raw in
+  let out := post_processing argsort sort_clusters shuffle_nodes index raw in
+  let img i := if shuffle_nodes then nthn index i else i in
+  length out = n /\
+  (forall i j, i < n -> j < n -> (nthn out (img i) = nthn out (img j) <-> nthn raw i = nthn raw j)) /\
+  exists k, (forall c, In c out <-> c < k) /\
+            (sort_clusters = true ->
+             forall a b, a <= b -> b < k -> count_occ Nat.eq_dec out b <= count_occ Nat.eq_dec out a).
+Proof.
+  intros Hsort Hshuf Hcontig n out img.
+  set (lab1 := if sort_clusters then reindex_labels argsort (map Z.of_nat raw) else raw).
+  assert (H1 : length lab1 = n /\
+               (forall i j, i < n -> j < n -> (nthn lab1 i = nthn lab1 j <-> nthn raw i = nthn raw j)) /\
+               exists k, (forall c, In c lab1 <-> c < k) /\
+                         (sort_clusters = true -> forall a b, a <= b -> b < k ->
+                            count_occ Nat.eq_dec lab1 b <= count_occ Nat.eq_dec lab1 a)).
+  { unfold lab1. destruct sort_clusters.
+    - destruct (reindex_labels_spec_pf argsort (map Z.of_nat raw) (Hsort eq_refl)) as [HL [HP [HC HS]]].
+      rewrite map_length in HL, HP. split; [exact HL|]. split.
+      + intros i j Hi Hj. rewrite (HP i j Hi Hj). rewrite !nthz_map_of_nat_any. lia.
+      + eexists. split; [exact HC | intros _; exact HS].
+    - split; [reflexivity|]. split; [tauto|]. destruct (Hcontig eq_refl) as [k0 Hk0].
+      exists k0. split; [exact Hk0 | discriminate]. }
+  destruct H1 as [HL [HP [k [HC HS]]]].
+  unfold out, post_processing. fold lab1. unfold img. destruct shuffle_nodes.
+  - assert (HPm : Permutation index (seq 0 (length lab1))) by (rewrite HL; apply Hshuf; reflexivity).
+    destruct (unshuffle_correct_pf index lab1 HPm) as [HL2 [Hval Hperm]].
+    split; [rewrite HL2; exact HL|]. split.
+    + intros i j Hi Hj. rewrite !Hval by (rewrite HL; assumption). apply HP; assumption.
+    + exists k. split.
+      * intros c. rewrite <- HC. split; apply Permutation_in; [exact Hperm | apply Permutation_sym; exact Hperm].
+      * intros Es a b Hab Hb.
+        rewrite !(proj1 (Permutation_count_occ Nat.eq_dec _ _) Hperm). apply HS; assumption.
+  - split; [exact HL|]. split; [exact HP|]. exists k. split; assumption.
+Qed.
+
+Lemma split_vars_pf {A} (n_row n_col : nat) (labels : list A) :
+  length labels = n_row + n_col ->
+  let r := fst (split_vars n_row labels) in
+  let c := snd (split_vars n_row labels) in
+  length r = n_row /\ length c = n_col /\ r ++ c = labels /\
+  (forall x, In x labels <-> In x r \/ In x c).
+Proof.
+  intros H r c. unfold r, c, split_vars. cbn [fst snd].
+  split; [rewrite firstn_length; lia|]. split; [rewrite skipn_length; lia|].
+  split; [apply firstn_skipn|]. intros x. rewrite <- (firstn_skipn n_row labels) at 1. apply in_app_iff.
+Qed.
+
+Lemma propagation_labels_pf (sort_clusters bipartite : bool) (n_row : nat) (raw : list Z) :
+  let all := snd (unique_inverse raw) in
+  let k := length (nodup Z.eq_dec raw) in
+  length all = length raw /\
+  (forall i j, i < length raw -> j < length raw -> (nthn all i = nthn all j <-> nthz raw i = nthz raw j)) /\
+  (forall c, In c all <-> c < k) /\
+  propagation_labels sort_clusters bipartite n_row raw =
+    if bipartite then (firstn n_row all, Some (firstn n_row all, skipn n_row all)) else (all, None).
+Proof.
+  intros all k. destruct (unique_inverse_contiguous_pf raw) as [H1 [H2 H3]].
+  split; [exact H1|]. split; [exact H2|]. split; [exact H3|].
+  unfold propagation_labels, split_vars. destruct bipartite; reflexivity.
+Qed.
+
+(** PropagationClustering accepts sort_clusters=True (the default) and never sorts. *)
+Lemma propagation_sort_clusters_refuted_pf :
+  exists raw : list Z,
+    let out := fst (propagation_labels true false 0 raw) in
+    ~ (forall a b, a <= b -> b < 2 -> count_occ Nat.eq_dec out b <= count_occ Nat.eq_dec out a).
+Proof.
+  exists [0; 0; 2; 2; 2]%Z. intros out H. specialize (H 0 1 ltac:(lia) ltac:(lia)).
+  vm_compute in H. lia.
+Qed.
+
+Lemma kcenters_centers_pf bipartite pos n_row n_col k n_init max_iter ppr pick scores modularity out :
+  (forall r, pick_ok (pick r)) ->
+  kcenters_fit bipartite pos n_row n_col k n_init max_iter ppr pick scores modularity = Ok out ->
+  length (kc_centers out) = k /\ NoDup (kc_centers out) /\
+  (forall c, In c (kc_centers out) -> admissible bipartite pos n_row n_col c) /\
+  (kc_centers_row out, kc_centers_col out) = report_centers bipartite pos n_row (kc_centers out).
+Proof.
+  intros Hp H. destruct (kcenters_fit_spec _ _ _ _ _ _ _ _ _ _ _ _ Hp H) as [a [b [c [_ e]]]].
+  repeat split; assumption.
+Qed.
+
+Lemma kcenters_labels_pf bipartite pos n_row n_col k n_init max_iter ppr pick scores modularity out :
+  (forall r, pick_ok (pick r)) ->
+  kcenters_fit bipartite pos n_row n_col k n_init max_iter ppr pick scores modularity = Ok out ->
+  let n := if bipartite then n_row + n_col else n_row in
+  exists lab, (length lab = n /\ forall l, In l lab -> (0 <= l < Z.of_nat k)%Z) /\
+    if bipartite then kc_labels out = firstn n_row lab /\ kc_labels_row out = Some (firstn n_row lab) /\
+                      kc_labels_col out = Some (skipn n_row lab)
+    else kc_labels out = lab /\ kc_labels_row out = None /\ kc_labels_col out = None.
+Proof.
+  intros Hp H. destruct (kcenters_fit_spec _ _ _ _ _ _ _ _ _ _ _ _ Hp H) as [_ [_ [_ [d _]]]]. exact d.
+Qed.
